@@ -114,7 +114,7 @@ CHECKS["C13"] = {
 CHECKS["C12"] = {
     "level": "exploration",
     "rule": ("rapid-generated close events over running virtual-time scenarios: 1-5 Close calls by client/server (same or different instants, concurrent callers), at drawn moments (0, mid-burst, around resend/ping periods), "
-             "with Send blocked on a full window, Recv blocked, unacknowledged data, faults active, transport working or black-holed; context cancellation during NewClientConn/NewServerConn; and (real time) a transport whose sendFunc blocks. "
+             "with Send blocked on a full window, Recv blocked, unacknowledged data, faults active, transport working or black-holed, and applications that never call Recv on one or both ends (receive buffer full at Close); context cancellation during NewClientConn/NewServerConn; and (real time) a transport whose sendFunc blocks. "
              "Oracles: every Close returns within FIN send timeout (1s) + 50ms of virtual time; blocked Send/Recv return errors and later calls fail within 50ms; over a working transport the peer's calls fail within one latency + 50ms; "
              "10 virtual minutes after both ends are closed no goroutine with a frame of the code under test remains in the bubble (runtime.Stack) and synctest reports no blocked goroutine. "
              "The same Close oracles are applied to mailbox.ClientConn / ServerConn over the in-memory relay in virtual time (TestC12MailboxClose: who/when/how many callers/traffic in flight/FIN deliverable or swallowed; Done() closed, peer notices by FIN within one latency or by the 5s/7s/3s keepalive, later Write fails, no goroutine left). Non-trivial: a Send was blocked or data was unacknowledged at the first Close, or several Close calls were made; every cancellation / blocking-transport / mailbox case with traffic or several callers."),
@@ -197,7 +197,7 @@ CHECKS["C04"] = {
     "rule": ("(1) exhaustive: all 81 (iMin,iMax,rMin,rMax) in {0,1,2}^4 x {XX,KK}, clean, and for every valid range all 4^3 (XX) / 4^2 (KK) substitutions of the acts' version bytes by 0..3; "
              "(2) exhaustive: every single-bit flip of every byte of every act for XX v0, v1, v2, XX negotiated 0..2 and KK; (3) rapid: payload sizes {0,1,497..501,65535..65537, up to 3 MiB}, nil payload, random multi-byte rewrites, random version substitutions. "
              "Oracle: if both sides return nil they agree on version (hook), hold complementary traffic keys (hook and a probe record each way), each other's true static key, the same SID and next pattern, onRemoteStatic fired on both or neither; "
-             "an initiator that completed holds exactly the responder's payload. Non-trivial: the relay changed a byte, or the negotiated version differs from a side's maximum; distinct by case."),
+             "an initiator that completed holds exactly the responder's payload, also when its ConnData already held auth data from an earlier handshake (drawn in a third of the rapid cases). Non-trivial: the relay changed a byte, or the negotiated version differs from a side's maximum; distinct by case."),
     "exhaustive_scope": "81 ranges x 2 patterns x all version-byte substitutions; all single-bit flips of 5 handshakes",
     "assumptions": ["scrypt cost lowered by the verif hook"],
     "units": [
@@ -224,7 +224,7 @@ CHECKS["C02"] = {
     "level": "fault_enumeration",
     "rule": ("(1) exhaustive: every single-bit flip of one whole wire record (encrypted length header, its MAC, body, body MAC) for payload sizes {0,1,2,16,33} (thorough: 9 sizes up to 300), at stream positions first / third / first after a key rotation (every 7th bit there), XX and KK, both directions; "
              "(2) rapid: sessions (XX/KK, all versions) whose writer emits 1-12 records (sizes 0..65535), captured at the wire and edited by scripts of up to 4 operations out of flip, truncate, drop, dup, swap, replay, reflect (the reader's own ciphertext of the other direction), inject bytes, swap header; "
-             "the edited stream is consumed through Machine.ReadMessage, NoiseGrpcConn.Read (in-memory ProxyConn) and NoiseConn.Read (hook constructor). (3) rapid: streams of up to 1700 records in which an earlier record (distance 1, 2, 250, 499, 500, 501, 1000, 1500 or random; i.e. within and across key rotations, aligned to the rotation period or not) is delivered in place of record k. Oracle: the records returned before the first error equal the first records written, "
+             "the edited stream is consumed through Machine.ReadMessage, NoiseGrpcConn.Read (in-memory ProxyConn) and NoiseConn.Read (hook constructor). (3) rapid: streams of up to 1700 records in which an earlier record (distance 1, 2, 250, 499, 500, 501, 1000, 1500 or random; i.e. within and across key rotations, aligned to the rotation period or not) is delivered in place of record k, and in addition every earlier record at a power-of-two distance (+-1) and at 250/500/750/1000/1500 (+-1) is offered to a value copy of the reader at that position. Oracle: the records returned before the first error equal the first records written, "
              "their number does not exceed the number of leading untouched records, and untouched leading records are all returned (no spurious error). Non-trivial: the script changed the byte stream; distinct by case."),
     "exhaustive_scope": "all single-bit flips of the stated records",
     "assumptions": ["reading stops at the first error (as the net.Conn users do)", "scrypt cost lowered by the verif hook"],
@@ -238,7 +238,7 @@ CHECKS["C02"] = {
 CHECKS["C08"] = {
     "level": "exploration",
     "rule": ("rapid-generated sessions (XX v0/v1/v2, KK) followed by up to 12 runs of records (4500 records per case in the quick tier, 20000 in the thorough tier; run lengths include 499/500/501/999/1000/1001 around the rotation every 500 records), "
-             "directions interleaved arbitrarily, sizes 0..65535, plaintext kinds: all-equal, the 2-byte body that equals its own length header, distinct random. Oracles per record: the (key, nonce) pair (hook) is new within its direction and the two directions never share a key; "
+             "directions interleaved arbitrarily - in half of the cases with writes and reads as separate steps, so that records of both directions are in flight while each side passes rotation boundaries -, sizes 0..65535, plaintext kinds: all-equal, the 2-byte body that equals its own length header, distinct random. Oracles per record: the (key, nonce) pair (hook) is new within its direction and the two directions never share a key; "
              "wire length is 18+len+16; the encrypted header never repeats; equal plaintexts never give equal ciphertext; a 2-byte body never equals any header ciphertext; no 16-byte window of plaintext or auth payload is on the wire (records and handshake); "
              "the peer decrypts every record to exactly what was written. Non-trivial: the stream crossed at least one rotation and contained equal plaintexts; distinct by case."),
     "assumptions": ["scrypt cost lowered by the verif hook"],
